@@ -25,9 +25,16 @@ def comp_type(name, implements, conv=1, required=False, dt=None):
                        "handler": None}]}
 
 
-def add_import_surface(rng, ir):
+SRC_URL = "http://sim.test/schema-lib/types-of-%s.xml"
+
+
+def add_import_surface(rng, ir, comp_src=0.0, src_versions=None):
     """Give the schema an abstract type + slot that component packages can
-    implement.  Returns (packages, pkgfiles, component types by package)."""
+    implement.  Returns (packages, pkgfiles, component types by package).
+
+    comp_src: probability that a component pulls a base type from a schema
+    FILE of its own (<import src=URL/>); src_versions receives, per such
+    URL, the file's text and a later edition of it (another default)."""
     ir["types"].insert(0, {"name": "abx", "kind": "abstract"})
     ir["top"].append({"kind": "multisection", "type": "abx", "name": "*",
                       "attribute": "abx_list", "required": False,
@@ -76,6 +83,25 @@ def add_import_surface(rng, ir):
                       "keytype": kt, "datatype": None, "items": []}
                 own.append(te)
                 ctypes[pname] = [t, te]
+        if comp_src and rng.random() < comp_src:
+            surl = SRC_URL % pname
+            base = comp_type("ps%d" % k, None, conv=k + 5)
+            base["items"][0]["name"] = "sk"
+            later = comp_type("ps%d" % k, None, conv=k + 5)
+            later["items"][0]["name"] = "sk"
+            later["items"][0]["default"] = "dflt-second-edition"
+            sir = {"keytype": "basic-key", "types": [], "top": []}
+            pkgfiles[surl] = G.render_schema(sir, types=[base], top=False)
+            if src_versions is not None:
+                src_versions[surl] = [
+                    pkgfiles[surl],
+                    G.render_schema(sir, types=[later], top=False)]
+            derived = {"name": "psx%d" % k, "kind": "concrete",
+                       "extends": "ps%d" % k, "implements": "abx",
+                       "keytype": None, "datatype": None, "items": []}
+            imports.insert(0, ("src", surl))
+            own.append(derived)
+            ctypes[pname] = ctypes[pname] + [base, derived]
         pkgfiles[pkg_file_key(pname)] = G.render_component(own, imports)
     if rng.random() < 0.2:
         # a component with a mistake that the schema machinery does not
@@ -96,6 +122,8 @@ def import_lines(rng, packages, ctypes, names):
             sp = rng.choice([pname, pname.upper() if False else pname])
             out.append({"t": "%import " + sp, "role": "import", "pkg": pname})
             for t in ctypes.get(pname, []):
+                if not t.get("implements"):
+                    continue           # a base type, not usable by itself
                 for _ in range(rng.randint(0, 2)):
                     nm = "in%d" % len(names)
                     names.append(nm)
@@ -131,15 +159,18 @@ def config_scenario(rng, opts=None):
 
 def _config_scenario(rng, opts=None):
     o = {"imports": 0.5, "callbacks": True, "ncuts": None, "std_only": False,
-         "handlers": False, "decoys": False}
+         "handlers": False, "decoys": False, "comp_src": 0.0}
     o.update(opts or {})
     ir = G.gen_schema(rng, {"callbacks": o["callbacks"],
                             "std_only": o["std_only"],
                             "handlers": o["handlers"]})
     packages, pkgfiles, ctypes = {}, {}, {}
+    src_versions = {}
     with_imports = rng.random() < o["imports"]
     if with_imports:
-        packages, pkgfiles, ctypes = add_import_surface(rng, ir)
+        src_versions = {}
+        packages, pkgfiles, ctypes = add_import_surface(
+            rng, ir, o["comp_src"], src_versions)
     after = []
     if with_imports and len([p_ for p_ in packages
                              if p_.startswith("zcsim_p") and p_[7:].isdigit()
@@ -176,7 +207,7 @@ def _config_scenario(rng, opts=None):
             entry = "url"
     return {"kind": "config", "schema_xml": xml, "ir": ir_full, "uni": uni,
             "top": uni["top"], "packages": packages, "pkgfiles": pkgfiles,
-            "entry": entry}
+            "entry": entry, "src_versions": src_versions}
 
 
 # ---------------------------------------------------------------------------
